@@ -370,7 +370,9 @@ impl NfaBuilder {
                 }
                 (min, None) => {
                     if self.expand_zero_or_more(&repetition.sub, next_state_id)? {
-                        self.expand_count(&repetition.sub, min, next_state_id)
+                        // The mandatory copies are followed by the `*` part just built.
+                        let star_state_id = self.nfa.last_state_id();
+                        self.expand_count(&repetition.sub, min, star_state_id)
                     } else {
                         Ok(false)
                     }
